@@ -538,6 +538,10 @@ func (db *SpecDB) loadText(data, path, pkgPath string, extern bool) error {
 				cur.Det = true
 			case "det":
 				cur.Det = true
+			case "readonly":
+				// modifies nothing the caller can see (checked as an empty frame); unlike `pure`
+				// the result need not be a function of the arguments (network, time, ...)
+				cur.Pure = true
 			case "fresh":
 				cur.Fresh = true
 			case "nobody":
